@@ -97,13 +97,40 @@ def comment_family(rp):
             if l.strip().startswith("else"):
                 continue
             ind = re.match(r"^ *", l).group(0)
-            for role, v in (("comment-line-same-indent", lines[:i] + [ind + "# note"] + lines[i:]),
-                            ("trailing-comment", lines[:i] + [l + "  # note"] + lines[i + 1:])):
+            variants = [("comment-line-same-indent", lines[:i] + [ind + "# note"] + lines[i:]),
+                        ("trailing-comment", lines[:i] + [l + "  # note"] + lines[i + 1:])]
+            nxt = lines[i + 1] if i + 1 < len(lines) else ""
+            if len(re.match(r"^ *", nxt).group(0)) > len(ind) and not l.strip().startswith("#"):
+                # a block header: comment line(s) between the header and its body, indented like the header
+                variants.append(("comment-after-block-header", lines[:i + 1] + [ind + "# note"] + lines[i + 1:]))
+                variants.append(("comment-after-block-header", lines[:i + 1] + [ind + "# note", ind + "# more"] + lines[i + 1:]))
+            for role, v in variants:
                 n += 1
                 s1, o1 = rp.transpile("\n".join(v))
                 if (s0, o0 if s0 == "OK" else "") != (s1, o1 if s1 == "OK" else ""):
                     bad.append({"role": role, "src": "\n".join(v), "why": f"verdict/output changed: {s0}->{s1} {o1[:80] if s1 != 'OK' else ''}"})
     return n, bad
+
+
+def crlf_family(rp):
+    """Pipeline level: switching LF to CRLF keeps verdict and output."""
+    bad, n = [], 0
+    for src in BASE + ["def a := 3\ndef x: Int := match a\n    1 => 10\n    _ => 20\nprint(x)"]:
+        n += 1
+        s0, o0 = rp.transpile(src)
+        s1, o1 = rp.transpile(src.replace("\n", "\r\n"))
+        if (s0, o0 if s0 == "OK" else "") != (s1, o1 if s1 == "OK" else ""):
+            bad.append({"role": "crlf", "src": src.replace("\n", "\r\n"), "why": f"verdict/output changed: {s0}->{s1} {o1[:80] if s1 != 'OK' else ''}"})
+    return n, bad
+
+
+def replay_crlf(rp, what):
+    def f(model):
+        n, bad = crlf_family(rp)
+        if bad:
+            return {"reproduced": True, "role": f"{what}:crlf", "detail": f"{bad[0]['why']} for {bad[0]['src']!r}"}
+        return replay_family(rp, what, {"crlf"})(model)
+    return f
 
 
 def replay_comments(rp, what):
@@ -293,6 +320,33 @@ def run(run):
     except Unsupported as e:
         ob.inconclusive(str(e))
 
+    ob = run.ob("block-skips-newline-runs", "E2", "parse_block (documented: consumes any newlines preceding the block): on every "
+                "path the first thing done with the token iterator is eat_while(NL), and only then the Indent is required — a "
+                "run of newlines (blank or comment lines between a header and its body) is invisible", ["parse_block"])
+    try:
+        fnb = e2.find1(mir, file="src/parse/block.rs", name="parse_block")
+        exb = Exec(mir, max_paths=5000)
+        stb = State()
+        itb = Ref(exb.new_cell(stb, Opq(z3.Const("it", Val), "LexIterator")))
+        endsb = e2.run_kernel(run, exb, fnb, [itb], stb)
+        clb = []
+        for p in endsb:
+            evs = [e_ for e_ in p.events if e_["name"].startswith("LexIterator::") and e_["name"] != "LexIterator::start_pos"]
+            if not evs:
+                continue          # error before the iterator is touched
+            first = evs[0]
+            is_nl = False
+            if first["name"] == "LexIterator::eat_while":
+                a1 = first["args"][1]
+                a1 = exb.read_ref(p.state, a1) if isinstance(a1, Ref) else a1
+                is_nl = isinstance(a1, Agg) and a1.variant == "NL"
+            clb.append(z3.Implies(conj(p.cond), z3.BoolVal(bool(is_nl))))
+        if not clb:
+            raise Unsupported("no path touches the iterator")
+        e2.prove_each(run, ob, exb, [], clb, {}, replay_comments(rp, "block-newlines"))
+    except Unsupported as e:
+        ob.inconclusive(str(e))
+
     ob = run.ob("crlf-equals-lf", "E2", "one lexer step on '\\r' followed by '\\n' leaves exactly the state and (empty) token "
                 "list that the step on '\\n' leaves, having consumed two characters; '\\r' followed by anything else is an error",
                 ["into_tokens ('\\r' and '\\n' arms)", "State::token(NL)"])
@@ -328,14 +382,15 @@ def run(run):
                 cl.append(z3.Implies(c, z3.Not(nxt_is_nl)))
         if n_cr < 2:
             raise Unsupported("carriage-return arm: expected an Ok and an Err path")
-        e2.prove_each(run, ob, exl, [Sl.inv()], cl, C18.names_of(Sl), replay_family(rp, "crlf", {"crlf"}))
+        e2.prove_each(run, ob, exl, [Sl.inv()], cl, C18.names_of(Sl), replay_crlf(rp, "crlf"))
     except Unsupported as e:
         ob.inconclusive(str(e))
 
     if all(o.status == "discharged" for o in run.obs):
         n, bad = trivia_family(rp)
         n2, bad2 = comment_family(rp)
-        n, bad = n + n2, bad + bad2
+        n3, bad3 = crlf_family(rp)
+        n, bad = n + n2 + n3, bad + bad2 + bad3
         run.validated += n
         if bad:
             run.ob("family-trivia", "native", "concrete trivia variants agree with discharged lemmas").inconclusive(str(bad[:2])[:600])
